@@ -261,5 +261,37 @@ def random_field(rng, *, d, nblocks, degree=3, nterms=3, time_dep=True, dout=Non
             ex = [0] * nv
             ex[i] = 1
             ti.append((Fraction(-rng.randint(1, 3), 2), tuple(ex)))
+        # combine like terms; a component must not vanish identically
+        acc = {}
+        for c, ex in ti:
+            acc[ex] = acc.get(ex, Fraction(0)) + c
+        ti = [(c, ex) for ex, c in acc.items() if c != 0]
+        if not ti:
+            ex = [0] * nv
+            ex[i % (nv - 1)] = 1
+            ti = [(Fraction(-1, 2), tuple(ex)), (Fraction(1, 3), tuple([0] * nv))]
         terms.append(ti)
     return PolyField(d, nblocks, terms, dout=dout)
+
+
+def nondegenerate(field, inits, t0, num_coeffs):
+    """True if no component of the exact solution is (locally) a polynomial of degree < num_coeffs+1:
+    the derivatives of order num_coeffs and num_coeffs+1 are non-zero in every component. Degenerate
+    problems make the local residual exactly zero, where calibration is 0/0 in any implementation."""
+    k = field.nblocks
+    der = ode_taylor_coefficients(field, inits, t0, max(num_coeffs + 2 - k, 1))
+    for row in der[num_coeffs : num_coeffs + 2]:
+        if any(x == 0 for x in row):
+            return False
+    return True
+
+
+def random_problem(rng, *, d, nblocks, num_coeffs, degree=3, nterms=3, time_dep=True, tries=50):
+    """(field, inits, t0) with rational data, non-degenerate up to the requested number of coefficients."""
+    for _ in range(tries):
+        field = random_field(rng, d=d, nblocks=nblocks, degree=degree, nterms=nterms, time_dep=time_dep)
+        inits = [[small_rational(rng) for _ in range(d)] for _ in range(nblocks)]
+        t0 = small_rational(rng, allow_zero=True)
+        if all(any(sum(ex[:-1]) > 0 for _c, ex in ti) for ti in field.terms) and nondegenerate(field, inits, t0, num_coeffs):
+            return field, inits, t0
+    raise RuntimeError("no non-degenerate problem found")
